@@ -49,7 +49,8 @@ var c10Attacks = []struct{ name, js string }{
 }
 
 const c10Probe = `
-_.props.tick();
+var tick = _.props.tick || function() {};
+tick();
 var G = (new Function("return this"))();
 var r = {};
 r.leak = typeof G.leak;
@@ -62,17 +63,17 @@ r.out = typeof _.out;
 r.envb = typeof _.bindings.replaced;
 r.mid = _.props.mid;
 r.extra = typeof _.props.extra;
-r.cfgx = _.props.cfg.x;
+r.cfgx = (_.props.cfg || {}).x; if (r.cfgx === undefined) { r.cfgx = null; } if (r.mid === undefined) { r.mid = null; }
 r.frozen = Object.isFrozen(Object.prototype);
 r.n = _.bindings.n; r.arr = _.bindings.arr; r.keep = _.bindings.keep; r.id = _.bindings.id; r.deep = _.bindings.deep;
-_.props.tick();
+tick();
 _.out({"probe": r.leak, "id": _.bindings.id});
 return r;
 `
 
 func c10Polluter(attacks []int) string {
 	var sb strings.Builder
-	sb.WriteString("var tick = _.props.tick; var G = (new Function(\"return this\"))();\n")
+	sb.WriteString("var tick = _.props.tick || function() {}; var G = (new Function(\"return this\"))();\n")
 	for i, a := range attacks {
 		fmt.Fprintf(&sb, "try { %s } catch (e) {}\n", c10Attacks[a].js)
 		if i%2 == 0 {
@@ -83,12 +84,15 @@ func c10Polluter(attacks []int) string {
 	return sb.String()
 }
 
-func c10Expected(id float64) (string, string) {
+func c10Expected(id float64, emptyProps bool) (string, string) {
 	r := map[string]interface{}{
 		"leak": "undefined", "helper": "undefined", "evil": "undefined", "sneaky": "undefined", "push": 1.0, "alen": 1.0,
 		"json": `{"a":1}`, "out": "function", "envb": "undefined", "mid": "m1", "extra": "undefined", "cfgx": 1.0, "frozen": false,
 		"n": map[string]interface{}{"q": 1.0}, "arr": []interface{}{1.0}, "keep": "k", "id": id,
 		"deep": []interface{}{map[string]interface{}{"k": []interface{}{1.0, map[string]interface{}{"z": 1.0}}}, []interface{}{1.0}},
+	}
+	if emptyProps {
+		r["mid"], r["cfgx"] = nil, nil
 	}
 	return ref.Canon(r), ref.Canon([]interface{}{map[string]interface{}{"probe": "undefined", "id": id}})
 }
@@ -144,6 +148,7 @@ func runC10(c *sim.Ctx, t *testing.T, concurrent bool) {
 	}
 	plan[nexec-1] = 0 // always end with a probe
 	useCompiled := c.Bool("precompiled")
+	emptyProps := !concurrent && c.Chance(1, 3, "emptyprops")
 
 	type result struct {
 		bsBefore, bsAfter, propsBefore, propsAfter string
@@ -164,6 +169,9 @@ func runC10(c *sim.Ctx, t *testing.T, concurrent bool) {
 		bs := match.Bindings{"n": map[string]interface{}{"q": 1.0}, "arr": []interface{}{1.0}, "keep": "k", "id": float64(i),
 			"deep": []interface{}{map[string]interface{}{"k": []interface{}{1.0, map[string]interface{}{"z": 1.0}}}, []interface{}{1.0}}}
 		props := core.StepProps{"mid": "m1", "cfg": map[string]interface{}{"x": 1.0}, "tick": tick}
+		if emptyProps {
+			props = core.StepProps{} // a host that passes empty, non-nil properties
+		}
 		r := &results[i]
 		r.bsBefore, r.propsBefore = ref.Canon(map[string]interface{}(bs)), propsCanon(props)
 		var compiled interface{}
@@ -228,7 +236,7 @@ func runC10(c *sim.Ctx, t *testing.T, concurrent bool) {
 		}
 		if plan[i] == 0 {
 			c.Count("probes")
-			wantBs, wantOut := c10Expected(float64(i))
+			wantBs, wantOut := c10Expected(float64(i), emptyProps)
 			if r.err != "" {
 				c.Violate("isolation:probe-failed", "probe %d failed with %q (executions before it: %v)", i, r.err, plan[:i])
 				continue
@@ -247,7 +255,7 @@ func runC10(c *sim.Ctx, t *testing.T, concurrent bool) {
 		}
 	}
 	c.MixHash(shape)
-	c.Path = shape + fmt.Sprint(concurrent, useCompiled)
+	c.Path = shape + fmt.Sprint(concurrent, useCompiled, emptyProps)
 	for _, pg := range progs[1:] {
 		c.Path += fmt.Sprint(pg.attacks)
 	}
